@@ -163,9 +163,24 @@ SeqErr(s, p) ==
 Err(s) ==
   LET v == ValidUpTo(s) IN IF v = Len(s) THEN NoErr ELSE SeqErr(s, v)
 
+\* A 4-byte sequence such as F0 8D BA BD violates TWO rules at once (it is an overlong
+\* encoding AND its value U+DEBD is a surrogate).  The statement only says the kind "names
+\* the violated rule", so either name is acceptable; ErrAlt is Err with the other priority
+\* (overlong before surrogate).  The two differ only on such doubly ill-formed sequences.
+SeqErrAlt(s, p) ==
+  LET e == SeqErr(s, p) IN
+  IF e.kind = KSurr /\ EncLen(RawAt(s, p, LeadLen(s[p + 1]))) < LeadLen(s[p + 1])
+  THEN [e EXCEPT !.kind = KOverlong] ELSE e
+ErrAlt(s) ==
+  LET v == ValidUpTo(s) IN IF v = Len(s) THEN NoErr ELSE SeqErrAlt(s, v)
+
 \* the full observable answer <<offset, kind, line, column>>; <<-1,0,0,0>> = Ok(())
 ErrFull(s) ==
   LET e == Err(s) IN
+  IF e.off = None THEN <<-1, 0, 0, 0>>
+  ELSE LET lc == LineColLF(s, e.off) IN <<e.off, e.kind, lc[1], lc[2]>>
+ErrFullAlt(s) ==
+  LET e == ErrAlt(s) IN
   IF e.off = None THEN <<-1, 0, 0, 0>>
   ELSE LET lc == LineColLF(s, e.off) IN <<e.off, e.kind, lc[1], lc[2]>>
 
